@@ -25,8 +25,14 @@ def LocalPass.f (P : LocalPass) : Node → List Node
   | .elem u t a cs => if P.drop t a then [] else [.elem u t (P.amap t a) cs]
   | n => if P.dropOther n then [] else [n]
 
+/-- an element must be in the svg or xlink namespace; no namespace at all (`<foo xmlns="">`) is not svg either -/
+def goodElemNs (name : String) : Bool :=
+  match (splitNs name).1 with
+  | some ns => ns == svgNs || ns == xlinkNs
+  | none => false
+
 def nonSvgPass (noneGood : Bool) : LocalPass :=
-  { drop := fun t _ => !goodNs noneGood t
+  { drop := fun t _ => !goodElemNs t
     amap := fun _ a => a.filter (fun (k, _) => goodNs noneGood k)
     dropOther := fun _ => false }
 
